@@ -270,6 +270,8 @@ class SRunner(world.Runner):
 
 # ------------------------------------------------------------------ running
 def merge_depth_mismatch(P, o):
+    if o['t'] >= len(P) or o['t2'] >= len(P):
+        return True
     a, b = P[o['t']], P[o['t2']]
     for n, c in series_cols(a):
         c2 = b._cols.get(n)
